@@ -378,16 +378,26 @@ def run_case(cx: Ctx, succs, variant=0, order=None, wrap=False, cross_check=Fals
 
     # ---- post-order
     limit = 4 * n + 8
+    signal.setitimer(signal.ITIMER_VIRTUAL, PO_CPU_GUARD_S)
     try:
-        it = X["PostOrderIterator"](blocks[0])
-        got_blocks = list(itertools.islice(it, limit))
-        exhausted_ok = True
-        if len(got_blocks) < limit:
-            try:
-                next(it)
-                exhausted_ok = False
-            except StopIteration:
-                pass
+        try:
+            it = X["PostOrderIterator"](blocks[0])
+            got_blocks = list(itertools.islice(it, limit))
+            exhausted_ok = True
+            if len(got_blocks) < limit:
+                try:
+                    next(it)
+                    exhausted_ok = False
+                except StopIteration:
+                    pass
+        finally:
+            signal.setitimer(signal.ITIMER_VIRTUAL, 0)
+    except Hang:
+        it = None  # drop the (possibly huge) stack
+        cx.viol("postorder:does-not-terminate",
+                f"PostOrderIterator used > {PO_CPU_GUARD_S}s CPU without finishing on {succs}", wit)
+        cx.c("graphs_with_postorder_mismatch")
+        return
     except Exception as e:  # noqa: BLE001
         cx.viol(f"postorder:raises:{type(e).__name__}", f"PostOrderIterator raised {e!r} on {succs}", wit)
         return
